@@ -509,7 +509,10 @@ func c04Verdict(res *rt.Result, invalid bool, want string) (verdict, class strin
 		return "", "checker-rejected"
 	}
 	if !hasE {
-		return "failed-before-use", "x"
+		// the event itself did not complete: nothing can be said about the
+		// reference (the property speaks about uses after a move that
+		// happened). Internal errors here are C01's subject. Don't-care.
+		return "", "dontcare:event-failed:" + res.Class + ":" + shortKind(res.Kind)
 	}
 	if invalid {
 		switch {
@@ -606,6 +609,11 @@ func runC04(env *mc.Env) {
 			}
 			env.R.Eval()
 			verdicts[e] = v
+			if strings.HasPrefix(class, "dontcare:") {
+				env.R.DontCare.Add(1)
+				env.R.Class(class, func() any { return c })
+				continue
+			}
 			if v != "" {
 				env.R.Violation(c04Sig(c, v), c, fmt.Sprintf("expected invalid=%v want=%s; got class=%s kind=%s logs=%v err=%s\n%s", invalid, want, res.Class, res.Kind, res.Logs, res.ErrString(), src))
 				continue
